@@ -6,6 +6,10 @@ ok, out = ensure_coq(clean=True)
 print(out[-3000:])
 if not ok:
     print("SETUP: Coq build reported errors (individual checks will report which obligations are broken)")
-ensure_oracle()
+for n in oracle_names():
+    try:
+        ensure_oracle(n)
+    except Exception as e:
+        print('SETUP: oracle %s failed to build: %s' % (n, str(e)[-2000:]))
 print("setup done in %.1fs" % (time.time() - t))
 sys.exit(0)
